@@ -21,7 +21,7 @@ def check(tier, seed):
     crashes = collections_counter()
     def on_result(j, r, st, det, io):
         k = io["kind"]
-        if st in ("no-run", "compile-crash", "skipped-ffi"):
+        if st in ("no-run", "compile-crash", "skipped-ffi", "impl-timeout", "model-timeout"):
             return True
         if k.startswith(("sanitizer", "signal", "assert", "crash", "timeout")):
             sig = vm_checks.crash_signature(r)
